@@ -165,12 +165,16 @@ type hijackWatch struct {
 	source  watch.Interface
 	result  chan watch.Event
 	stopped bool
+	// done is closed by Stop; it releases the relay goroutine from a send
+	// that the consumer will never receive
+	done chan struct{}
 }
 
 func newHijackWatch(source watch.Interface) watch.Interface {
 	w := &hijackWatch{
 		source: source,
 		result: make(chan watch.Event),
+		done:   make(chan struct{}),
 	}
 	go w.receive()
 	return w
@@ -181,6 +185,7 @@ func (w *hijackWatch) Stop() {
 	defer w.Unlock()
 	if !w.stopped {
 		w.stopped = true
+		close(w.done)
 		w.source.Stop()
 	}
 }
@@ -198,18 +203,30 @@ func (w *hijackWatch) receive() {
 			asts, ok := event.Object.(*asv1.StatefulSet)
 			if !ok {
 				// e.g. an Error event carrying a *metav1.Status: relay it as it is
-				w.result <- event
+				if !w.send(event) {
+					return
+				}
 				continue
 			}
 			sts, err := ToBuiltinStatefulSet(asts)
 			if err != nil {
 				panic(err)
 			}
-			w.result <- watch.Event{
-				Type:   event.Type,
-				Object: sts,
+			if !w.send(watch.Event{Type: event.Type, Object: sts}) {
+				return
 			}
 		}
+	}
+}
+
+// send delivers event to the consumer; it gives up (returns false) once the
+// watch has been stopped, because a consumer that called Stop need not read on.
+func (w *hijackWatch) send(event watch.Event) bool {
+	select {
+	case w.result <- event:
+		return true
+	case <-w.done:
+		return false
 	}
 }
 
